@@ -36,6 +36,9 @@
 
 
 #include <xalanc/Include/XalanMemoryManagement.hpp>
+#if defined(APACHE_XALAN_C_VERIF)
+#include <xalanc/Include/XalanVerifProbes.hpp>
+#endif
 
 
 
@@ -480,6 +483,9 @@ protected:
     {
         if (0 == m_listHead)
         {
+#if defined(APACHE_XALAN_C_VERIF)
+            const XalanVerifAllocSite   theVerifSite(XALAN_VERIF_SITE_LIST_HEAD);
+#endif
             m_listHead = allocate(1);
             m_listHead->next = m_listHead;
             m_listHead->prev = m_listHead;
